@@ -16,8 +16,23 @@ CHECKS = {
  "C12": ("fault_enumeration", "deterministic simulation: every hole-punch event checked against durable+current metadata images, crash at every event boundary inside compact",
          "compact() is inserted into every history; each punch event is compared, at the moment it is issued, with the regions described by the durable and by the current metadata image; every crash point inside/after compact goes through the C05 oracle; byte identity, placement and logical file length are compared around every compact. The racing-writer half (schedules) is covered by the C10/C11 thread world when built.",
          "Trusted: as C05; RegionMetadata::from_bytes for decoding the metadata images.", "6 C12"),
+ "C03": ("exploration", "deterministic simulation: seeded vecdb histories, all formats differentially vs a Vec<Option<T>> reference model, restarts at any point",
+         "Every step of ~10k (quick) / 300k (thorough) seeded histories over up to six vectors of one element type is followed by a full comparison (length, every element bit-exactly, deleted slots, stamp) with the model; write()/flush() positions differ per vector; re-import with and without database reopen.",
+         "Trusted: the reference model and its documented semantics; tmpfs; single thread.", "6 C03"),
+ "C04": ("exploration", "deterministic simulation: commit/rollback histories vs list-of-snapshots model with continuations",
+         "Commit histories with rollback()/rollback_before() from clean committed states and arbitrary continuations; contents, deleted slots and stamp compared with the snapshot list after every step, all formats.",
+         "Trusted: snapshot model; rollbacks only issued from clean committed states; uncommitted write()/re-import between commits excluded (they persist a change without a record).", "6 C04"),
+ "C07": ("exploration", "deterministic simulation: compressed formats, bit-exact values + page-index invariant read back through rawdb after every write",
+         "Compressed vectors only; every special float bit pattern and integer extreme; push sizes around the page capacity; after every write/commit/re-import the on-disk page index is parsed and checked (gap-free, all but last full and compressed, counts sum to stored length, data region ends at last page).",
+         "Trusted: page-entry layout (16 bytes: start u64, bytes u32, values u32 with raw flag in the top bit) as documented in the source.", "6 C07"),
+ "C08": ("exploration", "deterministic simulation: ~40 read paths compared on reached states, crossover knob randomised",
+         "On states reached by seeded histories every read path is executed under catch_unwind on boundary-biased ranges and compared with the model (full-state paths) or with each other and the stored shadow (stored-only paths); MMAP_CROSSOVER_BYTES is a per-run knob so both scan back-ends run.",
+         "Trusted: model; the classification of paths into full-state and stored-only (documented in the source).", "6 C08"),
+ "C20": ("exploration", "deterministic simulation: access tap on every mmap dereference / file read during the read battery, compared with region bounds",
+         "The access tap records every dereference site while the read battery runs; each access must lie inside [start,start+len) of one of the vector's own regions at that instant; states include after truncation, after rollback, and clones.",
+         "Trusted: tap placement (Reader::unchecked_read, read_from_ptr impls, native-layout slices, zerocopy refs, both I/O sources' refills).", "6 C20"),
  "C13": ("exploration", "deterministic simulation: refused requests inside seeded histories, model unchanged + continuation",
-         "Refused requests are issued at random points of rawdb histories; the call must fail, the state must equal the unchanged model at once and through the continuation.",
+         "Refused requests are issued at random points of rawdb histories (even runs) and vecdb histories (odd runs); the call must fail, the state must equal the unchanged model at once and through the continuation.",
          "Trusted: reference model; the refused-request catalogue (see DESIGN 6 C13).", "6 C13"),
 }
 
